@@ -198,6 +198,9 @@ func genCase(r *rand.Rand) cfgCase {
 		c.flags["diff-precision"] = strconv.Itoa(1 + r.Intn(3))
 	default:
 		c.flags["diff-precision"] = pickStr(r, "0", "4", "-1", "7", "100")
+		if r.Intn(2) == 0 { // the range is checked whatever the base is
+			c.flags["old"] = "INIT"
+		}
 	}
 	switch x := r.Intn(100); {
 	case x < 40:
@@ -543,6 +546,10 @@ func mutate(text string, kind int) (string, string, bool) {
 	case 2:
 		name, must = "diffPrecision=4", true
 		setKey("diffPrecision", " 4")
+		if len(lines)%2 == 0 { // … also when the base is INIT
+			name = "diffPrecision=4,oldBranch=INIT"
+			setKey("oldBranch", " INIT")
+		}
 	case 3:
 		name, must = "dataType=int", true
 		setKey("dataType", " int")
